@@ -688,17 +688,21 @@ private:
 
       _tasks.emplace(std::move(f));
 
-      // Check if we should spawn a new thread
-      if (_threads.size() < _maxSize)
+      // Check if we should spawn a new thread. The slot is reserved while the
+      // lock is held: the worker is inserted into _threads only after the lock
+      // has been released, so concurrent submitters must see the pending spawn
+      // or they would all pass this check and exceed _maxSize.
+      if (_threads.size() + _pendingSpawns < _maxSize)
       {
         shouldSpawn = true;
+        ++_pendingSpawns;
       }
     } // Release mutex here
 
     // Spawn outside of the lock to avoid deadlock
     if (shouldSpawn)
     {
-      spawnWorker();
+      spawnWorker(true);
     }
 
     _condition.notify_one();
@@ -727,24 +731,28 @@ private:
 
       _tasks.emplace(std::move(f));
 
-      // Check if we should spawn a new thread
-      if (_threads.size() < _maxSize)
+      // Check if we should spawn a new thread. The slot is reserved while the
+      // lock is held: the worker is inserted into _threads only after the lock
+      // has been released, so concurrent submitters must see the pending spawn
+      // or they would all pass this check and exceed _maxSize.
+      if (_threads.size() + _pendingSpawns < _maxSize)
       {
         shouldSpawn = true;
+        ++_pendingSpawns;
       }
     } // Release mutex here
 
     // Spawn outside of the lock to avoid deadlock
     if (shouldSpawn)
     {
-      spawnWorker();
+      spawnWorker(true);
     }
 
     _condition.notify_one();
     return true;
   }
 
-  void spawnWorker()
+  void spawnWorker(bool reservedSlot = false)
   {
     std::thread t(
       [this]()
@@ -929,6 +937,10 @@ private:
     std::lock_guard<std::mutex> lock(_mutex);
     auto threadId = t.get_id();
     _threads.emplace(threadId, std::move(t));
+    if (reservedSlot)
+    {
+      --_pendingSpawns;
+    }
 
     // NOTE: Exit acknowledgment flag is initialized INSIDE the lambda (at thread start)
     // to avoid race condition. Do NOT initialize it here!
@@ -1143,6 +1155,7 @@ private:
 
 private:
   std::unordered_map<std::thread::id, std::thread> _threads;
+  std::size_t _pendingSpawns{0}; // workers being spawned by submitters, not yet in _threads (guarded by _mutex)
   std::queue<std::function<void()>> _tasks;
   mutable std::mutex _mutex;
   std::condition_variable _condition;
